@@ -28,8 +28,10 @@ import (
 	"sync/atomic"
 	"time"
 
+	"github.com/prometheus/client_golang/prometheus"
 	"github.com/samber/lo"
 	"github.com/samber/ro"
+	roprometheus "github.com/samber/ro/ee/plugins/prometheus"
 )
 
 type raceScenario struct {
@@ -653,6 +655,33 @@ func raceSc_multiArity(r *rand.Rand, rounds int) {
 	}
 }
 
+// the instrumentation plugin (ee/plugins/prometheus): a freshly built instrumented pipe is subscribed for the first time
+// from several goroutines at once, and again afterwards; the stand-alone counters are shared by concurrent subscriptions
+func raceSc_promPipe(r *rand.Rand, rounds int) {
+	if promSetBypass != nil {
+		prev := promSetBypass(true)
+		defer promSetBypass(prev)
+	}
+	for i := 0; i < rounds; i++ {
+		cnt := prometheus.NewCounter(prometheus.CounterOpts{Name: "verif_race_cnt"})
+		ops := []intOp{ro.Map(func(v int) int { return v + 1 }), roprometheus.IncCounterOnNext[int](cnt), ro.Filter(func(v int) bool { return v%2 == 0 })}
+		obs, _ := eePipe(roprometheus.CollectorConfig{}, ro.Just(1, 2, 3, 4), ops[:1+r.Intn(3)])
+		var wg sync.WaitGroup
+		start := make(chan struct{})
+		for g := 0; g < 4; g++ {
+			wg.Add(1)
+			go func() {
+				defer wg.Done()
+				<-start
+				raceWaitSub(obs.Subscribe(raceSinkOf[int]()))
+			}()
+		}
+		close(start)
+		wg.Wait()
+		raceWaitSub(obs.Subscribe(raceSinkOf[int]()))
+	}
+}
+
 func raceSc_merge(r *rand.Rand, rounds int) {
 	for i := 0; i < rounds; i++ {
 		var obs ro.Observable[int]
@@ -866,6 +895,7 @@ func init() {
 	registerRaceScenario("combineLatest", 5000, raceSc_combineLatest)
 	registerRaceScenario("merge", 5000, raceSc_merge)
 	registerRaceScenario("multiArity", 6000, raceSc_multiArity)
+	registerRaceScenario("promPipe", 1500, raceSc_promPipe)
 	registerRaceScenario("race", 5000, raceSc_race)
 	registerRaceScenario("bufferWhen", 4000, raceSc_bufferWhen)
 	registerRaceScenario("windowWhen", 4000, raceSc_windowWhen)
